@@ -144,10 +144,18 @@ def main():
             sh('git -C %s worktree remove --force %s' % (REPO, TARGET['dir']))
             shutil.rmtree(scratch, ignore_errors=True)
     out = os.path.join(HERE, 'selftest_results.json')
-    prev = []
-    if os.path.exists(out):
-        prev = [r for r in json.load(open(out)) if r.get('mutant') not in [x.get('mutant') for x in results]]
-    json.dump(prev + results, open(out, 'w'), indent=1)
+    # several self-tests may run side by side: merge under a lock, replace the file atomically
+    import fcntl
+    with open(out + '.lock', 'w') as lk:
+        fcntl.flock(lk, fcntl.LOCK_EX)
+        prev = []
+        if os.path.exists(out):
+            try:
+                prev = [r for r in json.load(open(out)) if r.get('mutant') not in [x.get('mutant') for x in results]]
+            except ValueError:
+                prev = []
+        json.dump(prev + results, open(out + '.tmp', 'w'), indent=1)
+        os.replace(out + '.tmp', out)
     missed = [r for r in results if not r.get('caught')]
     print('%d mutants, %d missed' % (len(results), len(missed)))
     return 1 if missed else 0
